@@ -274,6 +274,8 @@ def canonical_variants(prog):
                 else:
                     body.append([l[0], ra(l[1])])
             q["clauses"].append({"heads": heads, "body": body})
+        if prog.get("merge_or"):
+            q["merge_or"] = True
         q["queries"] = [ra(a) for a in prog.get("queries", [])]
         q["evidence"] = [[ra(e[0]), e[1], "pair"] for e in prog.get("evidence", [])]
         return q
